@@ -2,7 +2,7 @@
 # usage: runall.sh [tier] [seed...]   - runs every claimed check, prints one line per check
 tier=${1:-quick}; shift
 seeds=${@:-1}
-cd /verif
+cd "$(dirname "$0")/.."
 for seed in $seeds; do
  for id in $(cat tools/claimed.txt); do
   out=$(VERIF_SEED=$seed ./vcheck $id $tier 2>&1); rc=$?
